@@ -26,18 +26,23 @@ package wc_rotation
 //@ func computeForkDataRoot
 //@   safety C18,C17
 //@   pure
+//@   erroronly[C17.total] HashTreeRoot
 //@   ensures[C17.forkdataroot] result1 == nil ==> result0 == specForkDataRoot(forkVersion, genesisValidatorsRoot)
 
 //@ func computeDomain
 //@   safety C18,C17
 //@   pure
+//@   erroronly[C17.total] computeForkDataRoot
 //@   ensures[C17.domain] result1 == nil ==> (forall k int :: 0 <= k && k < 4 ==> result0[k] == domainType[k]) && (forall k int :: 0 <= k && k < 28 ==> result0[4+k] == specForkDataRoot(forkVersion, genesisValidatorsRoot)[k])
 
 //@ func GetSigningRoot
 //@   safety C18,C17
 //@   pure
+//@   erroronly[C17.total] computeDomain HashTreeRoot
 //@   ensures[C17.signingroot] result1 == nil ==> (forall k int :: 0 <= k && k < 32 ==> result0[k] == specSigningRoot(validatorIndex)[k])
 
+// [C17.total]: no index is refused: an error comes only from the SSZ hasher (which, for these fixed-size containers,
+// has no failing path: assumed contract of fastssz)
 // ---- the baked list (decided by evaluating the embedded file with the real strings.Split / strconv functions)
 //@ ground[C17.list.count] splitCount(ValidatorsIndexes, "\n") == 18633
 //@ ground[C17.list.wellformed] forall i int :: 0 <= i && i < 18632 ==> canonicalDecimal(splitPart(ValidatorsIndexes, "\n", i)) && decimalInt64(splitPart(ValidatorsIndexes, "\n", i)) && decimalValue(splitPart(ValidatorsIndexes, "\n", i)) >= 0
